@@ -181,10 +181,17 @@ def guard_clause(model, rep, funcs):
                    clause="4 identity", stmt=f"guard ({a})")
             continue
         g = first[0]
-        got = _guard_form(model, f, g.test)
+        MGd = Matcher(f)
+        test = MGd.expr(g.test)  # named thresholds / flags (`no_filter = ...`) expanded
+        body, orelse = g.body, g.orelse
+        while isinstance(test, ast.UnaryOp) and isinstance(test.op, ast.Not):
+            # `if not G: <filter> else: <identity>` is `if G: <identity> else: <filter>`
+            test = test.operand
+            body, orelse = (orelse if orelse else [st for st in f.node.body[f.node.body.index(g) + 1:]]), body
+        got = _guard_form(model, f, test)
         want = _guard_form(model, f, ref)
         forms[a] = got
-        ret = [r for r in g.body if isinstance(r, ast.Return)]
+        ret = [r for r in body if isinstance(r, ast.Return)]
         is_ft = a in FT
         ret_ok = bool(ret) and (norm_src(ret[0].value) == "img" if not is_ft else norm_src(ret[0].value) in ("fftn(img)", "backend.fftn(img)"))
         rep.ob("GUARD", a, "identity guard is `cutoff >= 0.5*sqrt(ndim) or cutoff <= 0` and returns the input " + ("spectrum" if is_ft else "image") + " unchanged",
